@@ -710,6 +710,16 @@ func (s Emitter) WriteExpression(output io.Writer, expression cypher.Expression)
 		}
 
 	case *cypher.KindMatcher:
+		if typedExpression.IsExclusive && len(typedExpression.Kinds) > 1 {
+			// All-of kind test (what the parser builds for n:A:B): emit the label conjunction form. The any-of spelling
+			// below would hand Neo4j a weaker predicate than the one the PostgreSQL translator evaluates for this node.
+			if err := s.WriteExpression(output, typedExpression.Reference); err != nil {
+				return err
+			}
+
+			return s.WriteExpression(output, typedExpression.Kinds)
+		}
+
 		if len(typedExpression.Kinds) > 1 {
 			if _, err := io.WriteString(output, "("); err != nil {
 				return err
